@@ -84,7 +84,9 @@ Step == /\ tid <= NT /\ l <= Len(T.ev)
            /\ fails' = fails
                 \cup (IF e.raised THEN {<<"C16.returns", l>>} ELSE {})
                 \cup (IF ~e.raised /\ e.op \in {"add", "rem"} /\ ~SEq(r.ret, N(e.ret)) THEN {<<"C16.pinned_value", l>>} ELSE {})
-                \cup (IF ~e.raised /\ e.op # "union" /\ ~SameCells(r.cells, e.cells) THEN {<<"C16.no_half_update", l>>} ELSE {})
+                \cup (IF ~e.raised /\ e.op # "union" /\ ~SameCells(r.cells, e.cells) THEN {<<"C16.no_half_update", l>>, <<"C06.cells", l>>} ELSE {})
+                      \* the cells are read from the exported bytes: the same comparison is C06's "filled with exactly the cells the history gives",
+                      \* here for histories that reach a storage limit (pinned cells stay pinned in the export)
                 \cup (IF ~e.raised /\ e.op = "union" /\ ~UnionOK(e) THEN {<<"C16.union_clamped", l>>} ELSE {})
                 \cup (IF ~e.raised /\ e.op = "union" /\ ~UnionOK(e)                                  \* no cell of the true sum is saturated: plain C12
                          /\ \A p \in 1..Len(cells) : SCmp(SAdd(cells[p], N(e.other.cells[p])), U32Max) < 0 THEN {<<"C12.cells", l>>} ELSE {})
